@@ -14,7 +14,7 @@
    NOT modelled (decided by search only — clifs -mode fs: generated trees x invocation shapes against a reference of the
    documented rules): flag parsing, createTasks / NewTask (which files are selected and where they go), filter
    patterns, attribute preservation, stdin/stdout plumbing. *)
-From MV Require Import Base.MvBytes Cli.CliModel Cli.CliProofs Cli.CliFinal Cli.ConcatModel Cli.ConcatProofs Cli.GlobModel Cli.GlobSpec Cli.GlobProofs Cli.PathModel Cli.PathProofs.
+From MV Require Import Base.MvBytes Cli.CliModel Cli.CliProofs Cli.CliFinal Cli.ConcatModel Cli.ConcatProofs Cli.GlobModel Cli.GlobSpec Cli.GlobProofs Cli.PathModel Cli.PathProofs Cli.PathTasks.
 
 Theorem inplace_task_spec : forall p orig r outs f,
   f p = Some orig -> concat outs = payload orig r ->
@@ -153,3 +153,28 @@ Example destinations_nonvacuous :
   new_task_dst [115; 114; 99] [115; 114; 99; 47; 115; 117; 98; 47; 46; 98] [111; 117; 116; 47] =
     Some [111; 117; 116; 47; 115; 117; 98; 47; 46; 98].                            (* "src" "src/sub/.b" "out/" -> "out/sub/.b" *)
 Proof. vm_compute. split; reflexivity. Qed.
+
+(* which root createTasks derives: root := Clean(Dir(input as typed)), taken BEFORE the input is cleaned — so a directory
+   given without a trailing separator is mirrored together with its own name, one given with a trailing separator
+   contributes its contents only, and a file given on the command line lands directly in the output directory *)
+Theorem directory_input_is_mirrored_with_its_name : forall rooted rc d rest output,
+  plain_list rc = true -> plain d = true -> plain_list rest = true -> is_dir_output output = true ->
+  let typed := show (rooted, rc ++ [d]) in
+  task_root typed = show (rooted, rc) /\
+  walked_dst typed (show (rooted, rc ++ [d] ++ rest)) output = Some (show (fst (cleaned output), snd (cleaned output) ++ [d] ++ rest)).
+Proof. exact R1_dir_no_slash. Qed.
+Print Assumptions directory_input_is_mirrored_with_its_name.
+
+Theorem directory_input_with_trailing_slash_gives_its_contents : forall rooted rc d rest output,
+  plain_list rc = true -> plain d = true -> plain_list rest = true -> is_dir_output output = true ->
+  let typed := show (rooted, rc ++ [d]) ++ [47] in
+  task_root typed = show (rooted, rc ++ [d]) /\
+  walked_dst typed (show (rooted, rc ++ [d] ++ rest)) output = Some (show (fst (cleaned output), snd (cleaned output) ++ rest)).
+Proof. exact R2_dir_slash. Qed.
+Print Assumptions directory_input_with_trailing_slash_gives_its_contents.
+
+Theorem file_input_lands_in_the_output_directory : forall rooted rc f output,
+  plain_list rc = true -> plain f = true -> is_dir_output output = true ->
+  file_dst (show (rooted, rc ++ [f])) output = Some (show (fst (cleaned output), snd (cleaned output) ++ [f])).
+Proof. exact R3_file. Qed.
+Print Assumptions file_input_lands_in_the_output_directory.
